@@ -25,6 +25,9 @@ type C13Case struct {
 	Fast    bool        `json:"fast"`
 	// Direct (fast solver, non-modular): the solver is built with the public constructor, bias links as ordinary connections
 	Direct bool `json:"solver_from_constructor,omitempty"`
+	// SameNet (fast solver derived from a network): the fresh instance is a second solver derived, after the flush, from the
+	// same network object as the flushed one - solvers are independent of each other
+	SameNet bool `json:"fresh_solver_from_the_same_network_object,omitempty"`
 	History []NetOp     `json:"history"`
 	Seq     []NetOp     `json:"sequence"`
 }
@@ -64,6 +67,7 @@ func GenC13() *rapid.Generator[C13Case] {
 	return rapid.Custom(func(t *rapid.T) C13Case {
 		c := C13Case{Fast: rapid.Bool().Draw(t, "fast solver")}
 		c.Direct = c.Fast && rapid.IntRange(0, 3).Draw(t, "solver from constructor") == 0
+		c.SameNet = c.Fast && !c.Direct && rapid.IntRange(0, 2).Draw(t, "same network object") == 0
 		nIn, nSensors := 0, 0
 		switch rapid.IntRange(0, 5).Draw(t, "topology") {
 		case 0:
@@ -195,6 +199,14 @@ func CheckC13(c C13Case, rec *Rec) error {
 	}
 	if ok, err := a.solver.Flush(); err != nil || !ok {
 		return fmt.Errorf("Flush returned (%v, %v)", ok, err)
+	}
+	if c.Fast && c.SameNet && !c.Direct {
+		s2, err := a.net.FastNetworkSolver()
+		if err != nil {
+			return fmt.Errorf("FastNetworkSolver (second solver of the same network): %v", err)
+		}
+		b = netOrSolver{net: a.net, solver: s2}
+		rec.Class("fresh solver derived from the network object of the flushed one")
 	}
 	_, cyclic := c.Net.topoOrder()
 	cyclic = !cyclic && c.Modular == nil
